@@ -101,12 +101,20 @@ func (f *Func) String() string {
 
 // Type returns the type of the function.
 func (f *Func) Type() types.Type {
-	// Cache type if not present. The address space can only be set through the
-	// AddrSpace field, after the constructor has cached the type; a cached type
-	// of another address space is replaced (not edited: it may be shared).
-	if f.Typ == nil || f.Typ.AddrSpace != f.AddrSpace {
+	// Cache type if not present.
+	if f.Typ == nil {
 		f.Typ = types.NewPointer(f.Sig)
 		f.Typ.AddrSpace = f.AddrSpace
+	}
+	// The address space can only be set through the AddrSpace field, after the
+	// constructor has cached the type. A cached type of another address space
+	// is neither edited (it may be shared) nor replaced (the type is queried
+	// while printing, possibly from several goroutines at once): the type is
+	// computed anew.
+	if f.Typ.AddrSpace != f.AddrSpace {
+		typ := types.NewPointer(f.Sig)
+		typ.AddrSpace = f.AddrSpace
+		return typ
 	}
 	return f.Typ
 }
